@@ -12,6 +12,8 @@ import (
 	"encoding/json"
 	"errors"
 	"fmt"
+	"github.com/google/trillian/types"
+	"google.golang.org/protobuf/proto"
 	"net/http"
 	"net/http/httptest"
 	"sort"
@@ -284,6 +286,46 @@ func (c *checker) instanceCheck(cs *caseInfo, t *truth, v *ctfe.ValidatedLogConf
 				c.violation("mirror does not serve the best source STH at or below its backend tree",
 					fmt.Sprintf("backend size %d: status %d served tree_size %d, store's best is %d", size, g.status, g.size, w.TreeSize), cs, "get-sth", "go", g.body, fmt.Sprint(w.TreeSize))
 				return
+			}
+		}
+		// a lagging backend replica: later get-latest-root answers report a smaller tree than an
+		// earlier one did; the bound is the tree the backend reports for THIS request
+		for _, size := range []int{4, 1, 6} {
+			size := size
+			backend.SetHook(func(method string, req proto.Message, next func() (proto.Message, error)) (proto.Message, error) {
+				rsp, err := next()
+				if method != "GetLatestSignedLogRoot" || err != nil {
+					return rsp, err
+				}
+				lr := types.LogRootV1{TreeSize: uint64(size), RootHash: backend.RootAt(size), TimestampNanos: 1800000000000000100, Revision: 99}
+				b, merr := lr.MarshalBinary()
+				if merr != nil {
+					return nil, merr
+				}
+				return &trillian.GetLatestSignedLogRootResponse{SignedLogRoot: &trillian.SignedLogRoot{LogRoot: b}}, nil
+			})
+			g, ok := serve()
+			backend.SetHook(nil)
+			if !ok {
+				return
+			}
+			best := -1
+			for i, n := range sourceSizes {
+				if int(n) <= size {
+					best = i
+				}
+			}
+			if g.status == 200 && g.size > uint64(size) {
+				c.violation("mirror serves an STH larger than its backend tree",
+					fmt.Sprintf("the backend (a lagging replica) reports tree size %d after having reported 7; served tree_size %d", size, g.size), cs, "get-sth", "go", g.body, fmt.Sprint("<= ", size))
+				return
+			}
+			if best >= 0 {
+				if w := store.sths[best]; g.status != 200 || g.size != w.TreeSize {
+					c.violation("mirror does not serve the best source STH at or below its backend tree",
+						fmt.Sprintf("backend (lagging) size %d: status %d served tree_size %d, store's best is %d", size, g.status, g.size, w.TreeSize), cs, "get-sth", "go", g.body, fmt.Sprint(w.TreeSize))
+					return
+				}
 			}
 		}
 		r.Add("mirror_histories_checked", 1)
